@@ -8,6 +8,7 @@ register("OWN-PROVENANCE", rules_own.rule_provenance)
 register("LINK-STAMP", rules_link.rule_link_stamp)
 register("LINK-WRITERS", rules_link.rule_link_writers)
 register("CAS-EPOCH-BLIND", rules_link.rule_cas_epoch_blind)
+register("LINK-TAG", rules_link.rule_link_tag)
 
 COMPOSITION = "composition of the per-step protocol conditions into a guarantee over all interleavings (the algorithm's invariant: owners + token = strong); the rules check that each step preserves it, they are not an inductive proof over schedules"
 TRUST = ["user RcObject::pop_edges / Drop honour the RcObject safety contract",
@@ -29,7 +30,7 @@ prop("C04", "other",
      ["'after a bounded number of collection rounds' (liveness of EBR)", "cycles (excluded by the statement)",
       COMPOSITION], assumptions=TRUST)
 prop("C09", "other",
-     ["OWN-BALANCE", "OWN-PRIMITIVES", "OWN-PROVENANCE", "CAS-EPOCH-BLIND", "LINK-WRITERS"],
+     ["OWN-BALANCE", "OWN-PRIMITIVES", "OWN-PROVENANCE", "CAS-EPOCH-BLIND", "LINK-WRITERS", "LINK-TAG"],
      ["linearizability of concurrent histories (each completed call performs one successful atomic operation on one word; "
       "the history-level claim is not checked)"], assumptions=TRUST)
 prop("C10", "other",
@@ -83,7 +84,7 @@ prop("C07", "other",
      ["absence of overflow for a given stack size: frame size depends on T, codegen and the user's Drop/pop_edges"],
      assumptions=TRUST)
 prop("C08", "other",
-     ["OWN-BALANCE", "OWN-PRIMITIVES", "OWN-PROVENANCE", "CAS-EPOCH-BLIND", "LINK-STAMP", "LINK-WRITERS"],
+     ["OWN-BALANCE", "OWN-PRIMITIVES", "OWN-PROVENANCE", "CAS-EPOCH-BLIND", "LINK-STAMP", "LINK-WRITERS", "LINK-TAG"],
      ["linearizability of concurrent histories (each completed call performs one successful atomic operation on one word; "
       "the history-level claim is not checked)"],
      witnesses=["TY-TAKE-MUT", "TY-PRIVATE"], assumptions=TRUST)
@@ -158,6 +159,10 @@ for _name, (_props, _d) in rules_ord.SECTIONS.items():
 # deferred function to run exactly once and eventually (the rules of C15)
 for _p, _src in (("C02", "C13"), ("C03", "C13"), ("C04", "C15")):
     registry.PROPS[_p]["rules"] += [x for x in registry.PROPS[_src]["rules"] if x not in registry.PROPS[_p]["rules"]]
+# "epoch bits invisible" (C11) covers the exchanges: a difference in the stamp alone must not surface as a failure;
+# the handle that repin takes is what keeps a guard-only participant (C20) from being finalized mid-repin
+for _p, _rules in (("C11", ["CAS-EPOCH-BLIND"]), ("C20", ["EBR-REACTIVATE"])):
+    registry.PROPS[_p]["rules"] += [x for x in _rules if x not in registry.PROPS[_p]["rules"]]
 for _p, _rules in (("C01", ["CW-ALLOC-INIT", "CW-DEFER-WRAPPER"]), ("C02", ["EBR-DEFAULT-COLLECTOR", "CW-DEFER-WRAPPER"]),
                    ("C03", ["CW-ALLOC-INIT", "CW-DEFER-WRAPPER"]), ("C04", ["CW-ALLOC-INIT"]), ("C10", ["CW-ALLOC-INIT"]),
                    ("C13", ["WRAP-ATOMICS", "EBR-DEFAULT-COLLECTOR", "CW-DEFER-WRAPPER"]),
